@@ -173,9 +173,9 @@ Idft(tmpA) ==
        /\ Record([op |-> IF tmpA THEN "vec_znx_idft_tmp_a" ELSE "vec_znx_idft", res |-> res, rs |-> rs, a |-> a, as |-> as],
                  ns, {res, a})
 
-\* inverse DFT writing over its own input (FFT64: same object size): the object becomes a big vector
+\* inverse DFT writing over its own input: the object becomes a big vector (FFT64: limbs of the same size; NTT120: a big limb is
+\* half a DFT limb, so result limb i lands on source limb i \div 2, which has been read by then; same limb count in the model)
 IdftInPlace ==
-  /\ Fft
   /\ \E a \in Pick(OfKind("dft")) : \E rs \in PickSize(Cap(a)) : \E as \in PickSize(Cap(a)) :
        /\ DefinedUpTo(a, Min2(rs, as))
        \* limbs past res_size keep their DFT-space bytes: as limbs of a big vector their content is unspecified
